@@ -124,12 +124,15 @@ class HeldFunction(Function):
             if self._state == self.STATE_OFF:
                 self._start_time_ms = context.now_ms
                 self._state = self.STATE_WAITING
-                self.pause_asap_eval(self._start_time_ms + duration)
+                if duration > 0:
+                    self.pause_asap_eval(self._start_time_ms + duration)
             elif self._state == self.STATE_WAITING:
                 delta = context.now_ms - self._start_time_ms
                 if delta >= duration:
                     self._state = self.STATE_ON
-                self.pause_asap_eval()
+                    self.pause_asap_eval()
+                else:
+                    self.pause_asap_eval(self._start_time_ms + duration)
         else:
             self._state = self.STATE_OFF
             self.pause_asap_eval()
